@@ -58,6 +58,7 @@ type Profile struct {
 	HostileNames bool // identifier-hostile names
 	LongNames    bool
 
+	TSServer       bool // the schema is run through the generated TypeScript server
 	ContractStrict bool // the schema is judged against the published OpenAPI/TypeScript contract
 	NoClient       bool // the schema is only used with server-side plugins: client-only findings do not restrict it
 
@@ -867,7 +868,7 @@ func (g *gen) headers(over []*Header) []*Header {
 	var out []*Header
 	for i := 0; i < n; i++ {
 		var name string
-		if len(over) > 0 && g.oneIn(2, "override") {
+		if len(over) > 0 && g.oneIn(2, "override") && !(g.p.TSServer && g.avoid("ts_header_override_not_merged")) {
 			name = pick(g, over, "overridden").Name
 			if g.oneIn(3, "casevariant") && !g.avoid("header_case_variant_override") {
 				name = strings.ToLower(name)
@@ -875,6 +876,23 @@ func (g *gen) headers(over []*Header) []*Header {
 			g.tagf("header_override")
 		} else {
 			name = pick(g, headerNames, "hname")
+			clash := false
+			for _, o := range over {
+				if strings.EqualFold(o.Name, name) {
+					clash = true
+				}
+			}
+			if clash && (g.p.TSServer && g.avoidQuiet("ts_header_override_not_merged") || !strings.EqualFold(name, name) ) {
+				continue
+			}
+			if clash && g.avoidQuiet("header_case_variant_override") {
+				// an accidental same-name declaration must at least use the same spelling
+				for _, o := range over {
+					if strings.EqualFold(o.Name, name) {
+						name = o.Name
+					}
+				}
+			}
 		}
 		if used[strings.ToLower(name)] {
 			continue
